@@ -88,6 +88,12 @@ def gen_history(rng):
         spike_times[k] = ts
     if len(keys) == 2 and spike_times[keys[0]] and rng.random() < 0.6:
         spike_times[keys[1]].append(rng.choice(spike_times[keys[0]]))      # coincident across variables
+    if keys and spike_times[keys[0]] and rng.random() < 0.4:
+        # NEARLY coincident (distinct doubles a few ulps to 1e-6 relative apart): must stay separate events
+        base = rng.choice(spike_times[keys[0]])
+        if base > 0:
+            near = base * (1 + rng.choice([1e-6, 3e-9, 2 ** -50, -1e-7]))
+            spike_times[rng.choice(keys)].append(near)
     ops = []
     allspk = [t for ts in spike_times.values() for t in ts]
     for _ in range(rng.choice([1, 3, 6, 10, 16])):
